@@ -78,6 +78,9 @@ class FieldElement:
         # self.num**(p-1) % p == 1
         # you might want to use % operator on n
         prime = self.prime
+        if self.num == 0 and n > 0:
+            # 0**n is 0; reducing n modulo p-1 would turn 0**(p-1) into 0**0 == 1
+            return self.__class__(0, prime)
         num = pow(self.num, n % (prime - 1), prime)
         return self.__class__(num, prime)
 
